@@ -102,6 +102,8 @@ def build(E):
             raise Unsupported("`in` network with non-address")
         return in_net(ctx.getf(item, "ver").z, ctx.getf(item, "val").z, ctx.getf(net, "ver").z, ctx.getf(net, "first").z, ctx.getf(net, "last").z)
     E.models[("contains", "model:net")] = net_contains
+    # int(address): the integer value alone - an IPv4 and an IPv6 address may share it (0.0.0.1 and ::1)
+    E.models[("int", "model:ip")] = lambda ctx, a: VInt(ctx.getf(a, "val").z)
 
     # ---------------- symbolic AccessControl object ---------------------------------------
     def netlist_cols(ctx, v):
